@@ -29,6 +29,8 @@ def rnd_features(seq, rng, nmax=4, cites=0, marks=()):
              "quals": {"label": ["f%d" % rng.randrange(1000)]}}
         if cites and rng.random() < 0.6:
             f["cites"] = rnd_cites(rng, cites)
+        if rng.random() < 0.12:
+            f["fuzzy"] = rng.choice(["within", "oneof", "between", "open"])
         feats.append(f)
     return feats
 
@@ -243,6 +245,10 @@ def twin_assemblies(run, by):
     for r in real_family_cases(rng, 2 if q else 10, 4, extra_unused=0):
         r["twin"] = {"by": by, "args": twin_args(r, by, rng)}
         recipes.append(r)
+    if by == "rot":       # annotated plasmids (simple, joined, between-base and inexact positions) stored at another origin
+        for r in real_family_cases(rng, 2 if q else 8, 3, annotate=True):
+            r["twin"] = {"by": by, "args": twin_args(r, by, rng)}
+            recipes.append(r)
     # failing assemblies must fail alike (missing module, duplicates)
     for r in real_family_cases(rng, 1 if q else 4, 3):
         if by == "rc":
@@ -266,6 +272,63 @@ def twin_assemblies(run, by):
                 mods = [{"id": "m%d" % (i + 1), "seq": m} for i, m in enumerate(c["modules"])] + [{"id": "rcstart", "seq": extra}]
                 recipes.append({"fn": "assemble", "enz": espec, "vector": {"id": "vec", "seq": c["vector"]}, "modules": mods, "id": "p", "name": "p",
                                 "twin": {"by": "case", "args": [rng.choice(["1", "01", "0"])] + ["1"] * len(mods)}})
+    if by == "case":
+        # which modules an error names, and the order in which a warning lists the left-out ones, do not depend on spelling:
+        # two independent duplicate pairs, one conflicting pair spelled in two cases, several spare modules
+        for espec, G in tc.geometries():
+            if G.capacity() < 6 or rng.random() < (0.6 if q else 0.0):
+                continue
+            c = G.case(rng, 2)
+            ov = G.overhangs(4, rng)
+            if not c or not ov or set(ov) & set(c["overhangs"]) or any(dna.rc(o) in c["overhangs"] for o in ov):
+                continue
+            mods = [{"id": "m%d" % (i + 1), "seq": m} for i, m in enumerate(c["modules"])]
+            dupA = G.module(c["overhangs"][0], gen.rnd(5, rng, G.safe), ov[0], gen.rnd(3, rng, G.safe), rng)
+            dupB = G.module(c["overhangs"][1], gen.rnd(4, rng, G.safe), ov[1], gen.rnd(2, rng, G.safe), rng)
+            sp1 = G.module(ov[2], gen.rnd(4, rng, G.safe), ov[3], gen.rnd(2, rng, G.safe), rng)
+            sp2 = G.module(ov[3], gen.rnd(3, rng, G.safe), ov[2], gen.rnd(2, rng, G.safe), rng)
+            masks = lambda n: [rng.choice(["1", "0", "01", "0011", "10"]) for _ in range(n)]     # noqa: E731
+            if dupA and dupB:
+                ms = mods + [{"id": "dupA", "seq": dupA}, {"id": "dupB", "seq": dupB}]
+                rng.shuffle(ms)
+                recipes.append({"fn": "assemble", "enz": espec, "vector": {"id": "vec", "seq": c["vector"]}, "modules": ms, "id": "p", "name": "p",
+                                "twin": {"by": "case", "args": ["0"] + masks(len(ms))}})
+            if sp1 and sp2:
+                ms = mods + [{"id": "spare1", "seq": sp1}, {"id": "spare2", "seq": sp2}]
+                rng.shuffle(ms)
+                recipes.append({"fn": "assemble", "enz": espec, "vector": {"id": "vec", "seq": c["vector"]}, "modules": ms, "id": "p", "name": "p",
+                                "twin": {"by": "case", "args": ["0"] + masks(len(ms))}})
+        # a palindromic start overhang spelled in mixed case, letter by letter (gTAC reads GTAc on the other strand)
+        for espec, G in tc.geometries():
+            if G.ovh % 2 or G.ovh < 2 or rng.random() < (0.5 if q else 0.0):
+                continue
+            half = gen.rnd(G.ovh // 2, rng)
+            pal = half + dna.rc(half)
+            ov = G.overhangs(2, rng)
+            if not ov or pal in ov:
+                continue
+            v = G.vector(ov[0], ov[1], gen.rnd(3, rng, G.safe), gen.rnd(5, rng, G.safe), rng)
+            m1 = G.module(ov[0], gen.rnd(4, rng, G.safe), pal, gen.rnd(3, rng, G.safe), rng)
+            m2 = G.module(pal, gen.rnd(5, rng, G.safe), ov[1], gen.rnd(2, rng, G.safe), rng)
+            if v and m1 and m2:
+                n2 = len(m2)
+                recipes.append({"fn": "assemble", "enz": espec, "vector": {"id": "vec", "seq": v}, "modules": [{"id": "m1", "seq": m1}, {"id": "m2", "seq": m2}],
+                                "id": "p", "name": "p", "twin": {"by": "case", "args": ["0", "0", "".join(rng.choice("01") for _ in range(n2))]}})
+    if by == "rc":
+        # a spare module that starts at the vector's upstream overhang (where the chain ends): only a warning, on either strand
+        for espec, G in tc.geometries():
+            if G.capacity() < 5 or rng.random() < (0.5 if q else 0.0):
+                continue
+            c = G.case(rng, rng.randint(1, 2))
+            ov = G.overhangs(1, rng)
+            if not c or not ov or ov[0] in c["overhangs"] or dna.rc(ov[0]) in c["overhangs"]:
+                continue
+            spare = G.module(c["overhangs"][-1], gen.rnd(4, rng, G.safe), ov[0], gen.rnd(3, rng, G.safe), rng)
+            if spare:
+                r = {"fn": "assemble", "enz": espec, "vector": {"id": "vec", "seq": c["vector"]},
+                     "modules": [{"id": "m%d" % (i + 1), "seq": m} for i, m in enumerate(c["modules"])] + [{"id": "spare", "seq": spare}], "id": "p", "name": "p"}
+                r["twin"] = {"by": "rc", "args": twin_args(r, "rc", rng)}
+                recipes.append(r)
     if by == "case":      # a vector whose two overhangs coincide must be refused in every spelling
         for espec, G in tc.geometries():
             if rng.random() < (0.7 if q else 0.0):
@@ -304,6 +367,28 @@ def fuzz_assemblies(run):
         if mode < 0.3:
             r["modules"].append(dict(r["modules"][0], id="again"))
         recipes.append(r)
+    # chains that lead back to an overhang already consumed (a loop, a rho): the walk must end, with MissingModule
+    for espec, G in tc.geometries():
+        if G.capacity() < 5 or rng.random() < (0.6 if q else 0.0):
+            continue
+        ov = G.overhangs(4, rng)
+        if not ov:
+            continue
+        A, B, C, Z = ov
+        v = G.vector(A, Z, gen.rnd(3, rng, G.safe), gen.rnd(5, rng, G.safe), rng)
+        mk = lambda a, b: G.module(a, gen.rnd(rng.randint(2, 5), rng, G.safe), b, gen.rnd(2, rng, G.safe), rng)   # noqa: E731
+        for shape in ([(A, B), (B, A)], [(A, B), (B, C), (C, B)], [(A, A)]):
+            ms = [mk(a, b) for a, b in shape]
+            if v and all(ms):
+                recipes.append({"fn": "assemble", "enz": espec, "vector": {"id": "vec", "seq": v},
+                                "modules": [{"id": "m%d" % (i + 1), "seq": m} for i, m in enumerate(ms)], "id": "p", "name": "p"})
+    # the first module that is refused is refused for a site too many (its structure is fine)
+    for r in real_family_cases(rng, 1 if q else 4, 3):
+        i = rng.randrange(len(r["modules"]))
+        site = r["enz"].get("name") and str(classes.cutter_of(r["enz"]).site)
+        if site:
+            r["modules"][i] = dict(r["modules"][i], seq=tc.with_extra_site(r["modules"][i]["seq"], site, rng))
+            recipes.append(r)
     # lower-case spellings around the duplicate scan: a palindromic start overhang, a reverse-complementary pair of starts
     for espec, G in tc.geometries():
         if G.ovh % 2 or rng.random() < (0.5 if q else 0.0):
